@@ -36,17 +36,14 @@ Proof.
   - reflexivity.
 Qed.
 
-Lemma last_index_some : forall (a : attrs) n i found,
-  (found <> None \/ exists v, In (n, v) a) -> last_index a n i found <> None.
+Lemma remove_last_some : forall (a : attrs) n v, In (n, v) a -> remove_last a n <> None.
 Proof.
-  induction a as [|[k v] a IH]; intros n i found H; simpl.
-  - destruct H as [H|[v H]]; [exact H | destruct H].
-  - apply IH. destruct (String.eqb k n) eqn:E.
-    + left; discriminate.
-    + destruct H as [H|[w [H|H]]].
-      * now left.
-      * inversion H; subst. rewrite String.eqb_refl in E. discriminate.
-      * right; now exists w.
+  induction a as [|[k w] a IH]; intros n v H; simpl.
+  - destruct H.
+  - destruct (remove_last a n) eqn:E; [discriminate|].
+    destruct H as [H|H].
+    + inversion H; subst. now rewrite String.eqb_refl.
+    + exfalso. eapply IH; eauto.
 Qed.
 
 Lemma a_value_in : forall (a : attrs) n, a_value a n <> ANull -> exists v, In (n, v) a.
@@ -61,9 +58,10 @@ Qed.
 Lemma ca_remove_ok : forall a n, exists a', ca_remove a n = Ok a'.
 Proof.
   intros a n. unfold ca_remove. destruct (a_has a n) eqn:E; [|eauto].
-  unfold a_remove. destruct (last_index a n 0 None) eqn:L; [eauto|].
-  exfalso. eapply last_index_some; [|exact L].
-  right. apply a_value_in. unfold a_has in E. destruct (a_value a n); simpl in E; congruence.
+  unfold a_remove. destruct (remove_last a n) eqn:L; [eauto|].
+  exfalso. destruct (a_value_in a n) as [v Hv].
+  { unfold a_has in E. destruct (a_value a n); simpl in E; congruence. }
+  eapply remove_last_some; eauto.
 Qed.
 
 (* ------------------------------------------------------------------------------------------------ *)
